@@ -5,5 +5,5 @@ CONSTANTS
   Tier = "thorough"
   Exports <- MCExports
   Defaults <- MCDefaults
-INVARIANTS Complete NoDuplicate Accepted Shape EvalOK
+INVARIANTS Complete NoDuplicate Accepted Shape EvalOK BundleOK
 CHECK_DEADLOCK FALSE
